@@ -225,12 +225,26 @@ func (h *history) evaluatePhase(ph *phase, evs []*event) {
 			continue
 		}
 		// --- detokenize
-		if e.err != nil {
-			if e.relaxed {
-				r.Count("disabled_phase_detokenize_errors", 1)
-			} else {
-				r.Violation(fmt.Sprintf("unexpected error: op=detokenize role=%s layer=%s type=%s class=%s", e.role, lname, typeName(e.in.typ), errClass(e.err)), h.detail(e, nil))
+		// a token whose record (in the context the call runs under) maintenance disabled is an unknown token for every
+		// reader: the token itself, no error; once enabled back its owner gets the original again (disabled.go)
+		if dlk := liveKey(e.ctx, e.in); (e.relaxed && h.disabledK[dlk]) || (!e.relaxed && e.role == "owner" && h.reenabled[dlk]) {
+			e := e
+			obs := detokObs{store: kind, l: e.layer, tok: e.in, val: e.want, known: e.hasWant && e.role == "owner", out: e.out, prob: e.problem, err: e.err}
+			via := "concurrent-calls"
+			if ph.sweep {
+				via = "sweep"
 			}
+			det := func(extra map[string]interface{}) map[string]interface{} { return h.detail(e, extra) }
+			if e.relaxed {
+				judgeDisabledDetok(r, obs, via, det)
+			} else if judgeReenabledDetok(r, obs, via, det) {
+				r.Count("owner_detokenize_returned_original", 1)
+			}
+			continue
+		}
+		if e.err != nil {
+			// also while other tokens are disabled: a detokenize call has no documented reason to fail
+			r.Violation(fmt.Sprintf("unexpected error: op=detokenize role=%s layer=%s type=%s class=%s", e.role, lname, typeName(e.in.typ), errClass(e.err)), h.detail(e, nil))
 			continue
 		}
 		if e.problem != "" {
@@ -242,8 +256,6 @@ func (h *history) evaluatePhase(ph *phase, evs []*event) {
 			switch {
 			case e.out.equal(e.want):
 				r.Count("owner_detokenize_returned_original", 1)
-			case e.relaxed && h.disabledK[liveKey(e.ctx, e.in)] && e.out.equal(e.in):
-				r.Count("disabled_token_came_back_itself", 1)
 			default:
 				r.Violation(fmt.Sprintf("reversibility: owner did not get the original back: layer=%s type=%s len=%s", lname, typeName(e.in.typ), e.want.lenClass()), h.detail(e, nil))
 			}
@@ -346,7 +358,7 @@ func (h *history) evaluatePhase(ph *phase, evs []*event) {
 	}
 
 	// --- store contents at quiescence (only while tokens are enabled)
-	if !ph.relaxed {
+	if !ph.relaxed && !ph.sweep {
 		for lk, v := range h.live {
 			ctx, tok := parseLive(lk, v.typ)
 			data, err := h.rig.store.Get(recordID("t.", tok.encoded(), ctx, v.typ), common.TokenContext{ClientID: clientIDs[ctx]})
